@@ -1,5 +1,5 @@
 """C34 - each transaction yields exactly one well-delimited log record (DESIGN 6.8)."""
-import asyncio, json, os, random
+import re, asyncio, json, os, random
 import vlib, squidctl, peers, escen, ucheck
 from vlib import VERIF
 
@@ -34,12 +34,12 @@ async def run_all(ctx, sq, rnd, out, counts, N):
     async def one(i):
         r0 = random.Random(ctx.seed * 100003 + i)
         val = gen_value(r0)
-        mode = r0.choice(['ok', 'ok', 'ok', 'denied', 'slow-abort', 'originclose', 'ok-post'])
+        mode = r0.choice(['ok', 'ok', 'ok', 'denied', 'slow-abort', 'originclose', 'ok-post', 'chunked-abort'])
         vid = 't%d' % i
         path = '/c34/%s' % vid + ('/denied' if mode == 'denied' else '')
         url = 'http://127.0.0.1:%d%s' % (o.port, path)
-        hs = [('Host', '127.0.0.1:%d' % o.port), ('X-Verif-Id', vid), ('X-Mode', 'slow' if mode == 'slow-abort' else mode), ('Connection', 'close')]
-        raw = ('%s %s HTTP/1.1\r\n' % ('POST' if mode == 'ok-post' else 'GET', url)).encode()
+        hs = [('Host', '127.0.0.1:%d' % o.port), ('X-Verif-Id', vid), ('X-Mode', 'slow' if mode in ('slow-abort', 'chunked-abort') else mode), ('Connection', 'close')]
+        raw = ('%s %s HTTP/1.1\r\n' % ('POST' if mode in ('ok-post', 'chunked-abort') else 'GET', url)).encode()
         for n_, v_ in hs:
             raw += ('%s: %s\r\n' % (n_, v_)).encode()
         fold = r0.choice(['', '', 'tab', 'sp', 'tab2'])
@@ -51,18 +51,24 @@ async def run_all(ctx, sq, rnd, out, counts, N):
         raw += b'X-C: ' + val + b'\r\n'
         if mode == 'ok-post':
             raw += b'Content-Length: 3\r\n\r\nabc'
+        elif mode == 'chunked-abort':
+            # an upload the client gives up while the origin has not answered: on a chunk boundary, inside chunk data, inside a
+            # chunk-size line, inside a chunk extension, inside the CRLF after chunk data
+            cutname, tailv = r0.choice([('boundary', b''), ('inside-data', b'7\r\nabc'), ('inside-size', b'1f'), ('inside-ext', b'1f;ext="a'), ('inside-crlf', b'3\r\nabc\r'),
+                                        ('malformed-size-line', b'GET / HTTP/1.1\r\n')])
+            raw += b'Transfer-Encoding: chunked\r\n\r\n5\r\nhello\r\n' + tailv
         else:
             raw += b'\r\n'
         c = peers.Client(rec, sq.port)
         await c.open()
         await c.send(raw)
-        if mode == 'slow-abort':
+        if mode in ('slow-abort', 'chunked-abort'):
             await asyncio.sleep(0.05)
-            c.reset()
+            (c.reset if (mode == 'slow-abort' or i % 2) else c.close)()
         else:
             await c.response('GET', 8.0)
             c.close()
-        counts[vid] = {'value': val, 'mode': mode, 'fold': fold}
+        counts[vid] = {'value': val, 'mode': mode, 'fold': fold, 'upload_cut': (cutname if mode == 'chunked-abort' else '')}
     await escen.gather_limited([one(i) for i in range(N)], limit=10)
     await asyncio.sleep(0.5)
     await o.stop()
@@ -81,7 +87,7 @@ def run(ctx):
         extra += 'access_log stdio:%s/q-%s.log f%s\n' % (sq.run, k, k)
     # codes that are written without quoting (%mt) or with the "raw" option ('), framed by markers: a value that still contains a
     # line break when it reaches the logger splits the record
-    extra += "logformat ffold id=%{X-Verif-Id}>h MT=%mt UA=%'{User-Agent}>h END\n"
+    extra += "logformat ffold id=%{X-Verif-Id}>h P=%>p MT=%mt UA=%'{User-Agent}>h END\n"
     extra += 'access_log stdio:%s/q-fold.log ffold\n' % sq.run
     lines = [l for l in sq.conf_text.split('\n') if l and not l.startswith('http_access')]
     acc = [l for l in sq.conf_text.split('\n') if l.startswith('http_access')]
@@ -121,24 +127,38 @@ def run(ctx):
     p = os.path.join(sq.run, 'q-fold.log')
     flines = (open(p, 'rb').read() if os.path.exists(p) else b'').split(b'\n')
     whole = {}
+    port_of = {}
     for line in flines:
-        if line.startswith(b'id='):
+        if line.startswith(b'id=') and not line.startswith(b'id=- '):
             vid = line[3:].split(b' ', 1)[0].decode('latin-1')
             whole.setdefault(vid, []).append(line.rstrip(b'\r').endswith(b' END'))
+            m = re.search(rb' P=(\d+) ', line)
+            if m:
+                port_of[m.group(1)] = vid
+    # a record without a request id belongs to the transaction whose connection (client port) it shares: a second record of it.
+    # (records of connections that never carried a request - the start-up probes of the driver - belong to nobody)
+    extra_of = {}
+    for line in flines:
+        if line.startswith(b'id=- '):
+            m = re.search(rb' P=(\d+) ', line)
+            if m and m.group(1) in port_of:
+                extra_of[port_of[m.group(1)]] = extra_of.get(port_of[m.group(1)], 0) + 1
     stray = sum(1 for line in flines if line and not line.startswith(b'id='))
     for vid, info in counts.items():
         got = whole.get(vid, [])
-        n = len(got) + sum(1 for okline in got if not okline)        # a line that lost its END marker was split: counts twice
+        n = len(got) + sum(1 for okline in got if not okline) + extra_of.get(vid, 0)        # a line that lost its END marker was split: counts twice
         cases.append({'kind': 'count', 'n': n, 's': [], 'q': []})
-        meta.append(('fold', vid, info, 'count', [b'split' if not okline else b'whole' for okline in got]))
+        meta.append(('fold', vid, info, 'count', [b'split' if not okline else b'whole' for okline in got] + [b'record-without-request'] * extra_of.get(vid, 0)))
     ctx.cov['stray_lines_in_framed_log'] = stray
+    ctx.cov['records_without_a_request_on_a_transaction_connection'] = sum(extra_of.values())
     prej, irej = ucheck.conformance(ctx, os.path.join(SPEC, 'Conf_LogQuote.tla'), os.path.join(SPEC, 'Conf_LogQuote.cfg'), cases, 'logquote')
     ctx.log('%d transactions, %d log cases; P-rejected %d, I-rejected %d' % (len(counts), len(cases), len(prej), len(irej)))
     for i in prej[:5]:
         k, vid, info, what, got = meta[i]
         ctx.violation('access log record for %s (%s, mode %s): %s' % (vid, k, info['mode'],
                       ('%d records instead of one' % len(got)) if what == 'count' else ('value %r logged as %r does not unquote to the client bytes / contains a raw delimiter' % (info['value'], got))),
-                      {'kind': 'log', 'quoting': k, 'mode': info['mode'], 'value': repr(info['value']), 'logged': repr(got)})
+                      {'kind': 'log', 'class': {'what': what, 'mode': info['mode'], 'upload_cut': info.get('upload_cut', '')}, 'quoting': k, 'mode': info['mode'],
+                       'value': repr(info['value']), 'logged': repr(got)})
     for i in irej:
         if i not in prej and len(ctx.drift) < 5:
             k, vid, info, what, got = meta[i]
@@ -150,7 +170,7 @@ def run(ctx):
     for m in meta[:3]:
         ctx.sample({'quoting': m[0], 'mode': m[2]['mode'], 'value': repr(m[2]['value']), 'what': m[3], 'logged': repr(m[4])})
     ctx.cov['rule'] = ('LogQuote.tla laws (reversible, no raw line break, no bare delimiter) model-checked for all strings <= 3 over 15 symbols x 4 quotings; then seeded transactions '
-                       '(ok, POST, denied, client abort, origin close) carrying a hostile header value, logged through four custom logformats (quoted-string, mime-blob, URL, shell); '
+                       '(ok, POST, denied, client abort, chunked upload abandoned at several points of the chunk syntax, origin close) carrying a hostile header value, logged through four custom logformats (quoted-string, mime-blob, URL, shell); '
                        'TLC evaluates for every transaction that exactly one record exists per log and that the logged field unquotes to the client bytes.')
     ctx.assumptions += ['CR/LF cannot reach the log through a parsed header value; their escaping is covered by the spec-level law only',
                         'the raw (%\') and default quoting are outside the reversibility clause']
